@@ -82,6 +82,12 @@ func (rt *RoundTripper) cacheResponse(req *http.Request, resp *http.Response) {
 		expires = time.Now().Add(rt.DefaultCacheTTL)
 	}
 
+	ttl := time.Until(expires)
+	if ttl <= 0 {
+		// the response is already stale (e.g. max-age=0, or an Expires value in the past)
+		return
+	}
+
 	respDump, err := httputil.DumpResponse(resp, true)
 	if err != nil {
 		return
@@ -89,7 +95,7 @@ func (rt *RoundTripper) cacheResponse(req *http.Request, resp *http.Response) {
 
 	ctx := req.Context()
 	cch := cache.Ctx(ctx)
-	cch.Set(ctx, cacheKey(req), respDump, time.Until(expires)) //nolint:errcheck
+	cch.Set(ctx, cacheKey(req), respDump, ttl) //nolint:errcheck
 }
 
 func cacheKey(req *http.Request) string {
